@@ -2199,12 +2199,21 @@ impl TieredEngine {
         );
 
         // Keep recent writes in hot tier to accelerate mixed hot/cold search merges.
-        let coherence = self
-            .cold_tier
-            .current_coherence_token(doc_id)
-            .ok_or_else(|| anyhow!("insert succeeded but cold tier has no canonical token"))?;
-        self.hot_tier
-            .insert_with_coherence(doc_id, embedding, metadata, coherence);
+        // The durable insert above has already succeeded. If a concurrent delete removed the
+        // document before we get here there is simply nothing to mirror: reporting an error
+        // would tell the caller that an applied (and since deleted) write failed.
+        match self.cold_tier.current_coherence_token(doc_id) {
+            Some(coherence) => {
+                self.hot_tier
+                    .insert_with_coherence(doc_id, embedding, metadata, coherence);
+            }
+            None => {
+                debug!(
+                    doc_id,
+                    "document deleted concurrently after durable insert; skipping hot-tier mirror"
+                );
+            }
+        }
 
         let mut stats = self.stats.write();
         stats.total_inserts += 1;
